@@ -277,10 +277,7 @@ func cmdVerify(args []string) {
 			bad++
 		}
 		for _, ob := range r.Obls {
-			ok := ob.Verdict == "unsat"
-			if ob.Cover {
-				ok = ob.Verdict != "unsat"
-			}
+			ok := obOK(ob)
 			if !ok {
 				bad++
 			}
